@@ -323,6 +323,19 @@ class NP(object):
         tol = P.const(atol) + P.const(rtol) * self.interp.builtins['abs'](b)
         return bool(self.interp.truth(pysym.compare('<=', a - b, tol)) and self.interp.truth(pysym.compare('<=', b - a, tol)))
 
+    def ndim(self, x):
+        x0 = pysym._unwrap0(x)
+        if isinstance(x0, (P, int, float, Fraction)):
+            return 0
+        if hasattr(x, 'writes') and hasattr(x, 'n'):          # laminate matrix model: n x n
+            return 2
+        shp = getattr(x, 'shape', None)
+        if shp is None and isinstance(x, (list, tuple)):
+            shp = _obj(x).shape
+        if shp is None or any(d is None for d in shp):
+            raise CheckerError('numpy.ndim of %s is not modelled' % type(x).__name__)
+        return len(shp)
+
     def isnan(self, x):
         return False
 
